@@ -49,6 +49,10 @@ CLAIMED = {
          'Exploration by generated search over set shapes (chain length x import count x winning level in the label histogram) with exact output equality against an independent interpreter.',
          "Trusts the reference interpreter. Shapes the statement leaves open are not generated: cycles, positional arguments, arguments reading a name bound by an earlier argument of the same yield, parameters without default that are omitted, a name defined twice in one file, 'yield content' in a block that can be invoked without content.",
          'DESIGN.md section 5/C08'),
+ 'C09': ("property-based testing (rapid), model-based: generated template sets in nested directories with include/exec/includeIfExists call sites (every name spelling, with/without context) at depth 0-3 inside range/block/try/include, callees that extend 0-2 levels, declare, rebind '.', define and yield blocks, assign caller variables and return at every position; oracle = MiniJet reference interpreter plus probes after every call site",
+         'Exploration by generated search: exact output equality (include renders in place, exec emits nothing and yields the last returned value, includeIfExists existing/missing/unparsable), no leak of callee declarations or context, relative names resolved against the including file (include) or the root (exec, includeIfExists).',
+         "Trusts the reference interpreter. Not generated: 'return' inside a block body (whether it counts is unspecified), 'return nil' after another return or inside a range.",
+         'DESIGN.md section 5/C09'),
 }
 PENDING = {}
 
